@@ -1,11 +1,11 @@
 import Poulpy.Lemmas.KsDecrypt
+import Poulpy.Lemmas.ProductBound
 
 /-!
 # The executed GLWE key switch: head-room derived from digit bounds, and the general regime with a closed truncation bound
 
-* Part 0 — `product_bound'`: every coefficient of the executed `Ks.gglweProductDft` is bounded by `dsize·(cols_in·rows)·N·Da·Dm`
-  (a copy of the lemmas of `Lemmas/HeadRoom.lean` up to `Core.product_bound`, which cannot be imported here: `HeadRoom` imports `Props.C03`,
-  which imports this file).
+* Part 0 — `Core.product_bound` (`Lemmas/ProductBound.lean`, the part of `Lemmas/HeadRoom.lean` that does not depend on Props/C03): every
+  coefficient of the executed `Ks.gglweProductDft` is bounded by `dsize·(cols_in·rows)·N·Da·Dm`.
 * Part 1 — `glwe_keyswitch_value_adm`, `glwe_keyswitch_decrypts_adm`, `glwe_keyswitch_assign_decrypts_adm`: the theorems of
   `Lemmas/KsDecrypt.lean` with the three accumulator hypotheses (`hHp0`, `hAcc`, `hprod`) replaced by a bound `Dm` on the key digits and ONE
   decidable admissible-shape inequality `ksAdmissible`, discharged by `decide` on the crate's parameter sets.
@@ -16,194 +16,10 @@ import Poulpy.Lemmas.KsDecrypt
 namespace KsDec
 open Hal Core Core.Ops C02L
 
-/-! ## Part 0: the derived bound of the executed gadget product (copy of `Core.product_bound`) -/
-
-section Bound
-open Ks
-
-/-- at most `n` coefficients, all bounded by `D` -/
-def PB' (n : Nat) (D : Int) (p : Poly) : Prop := p.length ≤ n ∧ ∀ x ∈ p, |x| ≤ D
-
-theorem PB'_zero (n : Nat) (D : Int) (hD : 0 ≤ D) : PB' n D (zeroP n) :=
-  ⟨by simp [zeroP], fun x hx => by simp only [zeroP, List.mem_replicate] at hx; rw [hx.2]; simpa using hD⟩
-
-theorem PB'.normInf_le {n : Nat} {D : Int} {p : Poly} (h : PB' n D p) (hD : 0 ≤ D) : normInf p ≤ D :=
-  normInf_le_of_forall h.2 hD
-
-theorem PB'.norm1_le {n : Nat} {D : Int} {p : Poly} (h : PB' n D p) (hD : 0 ≤ D) : norm1 p ≤ (n : Int) * D := by
-  have h1 := norm1_le_length_mul_normInf p
-  have h2 := h.normInf_le hD
-  have h3 : ((p.length : Nat) : Int) ≤ (n : Int) := by exact_mod_cast h.1
-  calc norm1 p ≤ (p.length : Int) * normInf p := h1
-    _ ≤ (n : Int) * D := mul_le_mul h3 h2 (normInf_nonneg p) (by positivity)
-
-theorem getD_PB' {n : Nat} {D : Int} (l : List Poly) (j : Nat) (h : ∀ p ∈ l, PB' n D p) (hD : 0 ≤ D) : PB' n D (l.getD j (zeroP n)) := by
-  rw [List.getD_eq_getElem?_getD]
-  cases hj : l[j]? with
-  | none => simpa using PB'_zero n D hD
-  | some p => simpa using h p (List.mem_of_getElem? hj)
-
-theorem dftApplyCol_PB' {n : Nat} {D : Int} (st off rs : Nat) (a : Col) (h : ∀ l ∈ a, PB' n D l) (hD : 0 ≤ D) :
-    ∀ l ∈ dftApplyCol n st off rs a, PB' n D l := by
-  intro l hl
-  unfold dftApplyCol at hl
-  simp only [List.mem_map, List.mem_range] at hl
-  obtain ⟨j, _, rfl⟩ := hl
-  split
-  · split
-    · exact getD_PB' a _ h hD
-    · exact PB'_zero n D hD
-  · exact PB'_zero n D hD
-
-/-- **one vector-matrix product**: every output polynomial has `‖·‖_∞ ≤ (cols_in·rows) · n·Da·Dm` -/
-theorem vmpFlat_bound' (n : Nat) (aF : List Poly) (m : PMat) (lo rl : Nat) (Da Dm : Int) (hDa : 0 ≤ Da) (hDm : 0 ≤ Dm)
-    (haF : ∀ p ∈ aF, PB' n Da p) (hm : ∀ j q, normInf (m.entry j q) ≤ Dm) :
-    ∀ p ∈ vmpFlat n aF m lo rl, normInf p ≤ ((m.colsIn * m.rows : Nat) : Int) * ((n : Int) * Da * Dm) := by
-  intro p hp
-  have hK : (0 : Int) ≤ (n : Int) * Da * Dm := by positivity
-  unfold vmpFlat at hp
-  simp only [List.mem_map, List.mem_range] at hp
-  obtain ⟨r, _, rfl⟩ := hp
-  split
-  · have h1 := normInf_sumPolys_le n ((List.range (min (m.colsIn * m.rows) aF.length)).map
-        (fun j => Hal.negMul (aF.getD j (zeroP n)) (m.entry j (r + lo * m.colsOut)))) ((n : Int) * Da * Dm) (by
-      intro q hq
-      simp only [List.mem_map, List.mem_range] at hq
-      obtain ⟨j, _, rfl⟩ := hq
-      have hb := getD_PB' aF j haF hDa
-      calc normInf (Hal.negMul (aF.getD j (zeroP n)) (m.entry j (r + lo * m.colsOut)))
-          ≤ norm1 (aF.getD j (zeroP n)) * normInf (m.entry j (r + lo * m.colsOut)) := normInf_negMul_le _ _
-        _ ≤ ((n : Int) * Da) * Dm := mul_le_mul (hb.norm1_le hDa) (hm _ _) (normInf_nonneg _) (by positivity))
-    rw [List.length_map, List.length_range] at h1
-    refine h1.trans (mul_le_mul_of_nonneg_right ?_ hK)
-    exact_mod_cast Nat.min_le_left _ _
-  · rw [normInf_zeroP]; positivity
-
-theorem act_PB' {n : Nat} {D : Int} (b : Buf) (c : Nat) (h : ∀ col ∈ b.data, ∀ l ∈ col, PB' n D l) : ∀ l ∈ b.act c, PB' n D l := by
-  intro l hl
-  unfold Buf.act at hl
-  have hl' := List.mem_of_mem_take hl
-  rw [List.getD_eq_getElem?_getD] at hl'
-  cases hc : b.data[c]? with
-  | none => simp [hc] at hl'
-  | some col =>
-    simp only [hc, Option.getD_some] at hl'
-    exact h col (List.mem_of_getElem? hc) l hl'
-
-theorem limbOr0_PB' {n : Nat} {D : Int} (c : Col) (j : Nat) (h : ∀ l ∈ c, PB' n D l) (hD : 0 ≤ D) : PB' n D (limbOr0 n c j) :=
-  getD_PB' c j h hD
-
-theorem passEntry_bound' (a : Buf) (key : Key) (n di l c : Nat) (Da Dm : Int) (hDa : 0 ≤ Da) (hDm : 0 ≤ Dm)
-    (ha : ∀ col ∈ a.data, ∀ p ∈ col, PB' n Da p) (hm : ∀ j q, normInf (key.mat.entry j q) ≤ Dm) :
-    normInf (passEntry a key n di l c) ≤ ((key.mat.colsIn * key.mat.rows : Nat) : Int) * ((n : Int) * Da * Dm) := by
-  unfold passEntry
-  rw [List.getD_eq_getElem?_getD]
-  cases h : (vmpFlat n (aiFlatOf a key n di) key.mat di (passSize key di * key.mat.colsOut))[l * key.mat.colsOut + c]? with
-  | none => simp only [Option.getD_none]; rw [normInf_zeroP]; positivity
-  | some p =>
-    simp only [Option.getD_some]
-    apply vmpFlat_bound' n _ key.mat di _ Da Dm hDa hDm _ hm p (List.mem_of_getElem? h)
-    intro q hq
-    unfold aiFlatOf at hq
-    simp only [List.mem_map, List.mem_range] at hq
-    obtain ⟨r, _, rfl⟩ := hq
-    exact limbOr0_PB' _ _ (dftApplyCol_PB' _ _ _ _ (act_PB' a _ ha) hDa) hDa
-
-theorem normInf_condFold_le' (m : Nat) (P : Nat → Prop) [DecidablePred P] (g : Nat → Poly) (init : Poly) (K : Int)
-    (hg : ∀ k, normInf (g k) ≤ K) :
-    normInf ((List.range m).foldl (fun acc k => if P k then polyAdd acc (g k) else acc) init) ≤ normInf init + (m : Int) * K := by
-  have hK : 0 ≤ K := (normInf_nonneg (g 0)).trans (hg 0)
-  induction m with
-  | zero => simp
-  | succ m ih =>
-    rw [List.range_succ, List.foldl_append]
-    simp only [List.foldl_cons, List.foldl_nil]
-    push_cast
-    split
-    · have := normInf_polyAdd_le ((List.range m).foldl (fun acc k => if P k then polyAdd acc (g k) else acc) init) (g m)
-      have := hg m
-      linarith
-    · linarith
-
-/-- **the executed gadget product, every `dsize ≥ 1`**: each limb of each column has `‖·‖_∞ ≤ dsize · (cols_in·rows) · N·Da·Dm` -/
-theorem product_bound' (N : Nat) (res a : Buf) (key : Key) (Da Dm : Int) (hDa : 0 ≤ Da) (hDm : 0 ≤ Dm) (hD : 1 ≤ key.dsize) (hres : res.WF)
-    (hmax : res.maxSize = key.mat.size) (_hsize : res.size = key.mat.size) (hcols : res.cols = key.mat.colsOut)
-    (hresn : res.n = N) (han : a.n = N)
-    (ha : ∀ col ∈ a.data, ∀ p ∈ col, PB' N Da p) (hm : ∀ j q, normInf (key.mat.entry j q) ≤ Dm) (c : Nat) (hc : c < res.cols) :
-    ∀ p ∈ (Ks.gglweProductDft res a key).act c,
-      normInf p ≤ (key.dsize : Int) * (((key.mat.colsIn * key.mat.rows : Nat) : Int) * ((N : Int) * Da * Dm)) := by
-  subst hresn
-  have hK : (0 : Int) ≤ ((key.mat.colsIn * key.mat.rows : Nat) : Int) * ((res.n : Int) * Da * Dm) := by positivity
-  by_cases h1 : key.dsize = 1
-  · have e : Ks.gglweProductDft res a key = opVmp res a key.mat 0 := by
-      unfold Ks.gglweProductDft; rw [if_pos h1]
-    obtain ⟨s1, s2, s3, s4, _, s6⟩ := Ks.opVmp_spec res a key.mat 0 hres
-    rw [e, h1]
-    intro p hp
-    obtain ⟨l, hl, rfl⟩ := List.getElem_of_mem hp
-    have hlen : ((opVmp res a key.mat 0).act c).length = res.size := by
-      rw [Buf.act_length _ s1 c (by rw [s2]; exact hc), s3]
-    have hl' : l < res.size := by rw [← hlen]; exact hl
-    have e2 : ((opVmp res a key.mat 0).act c)[l] = Ks.rawLimb res.n (opVmp res a key.mat 0) c l := by
-      have h1 : ((opVmp res a key.mat 0).act c)[l] = ((opVmp res a key.mat 0).act c).getD l (zeroP res.n) := by
-        simp [List.getD_eq_getElem?_getD, List.getElem?_eq_getElem hl]
-      rw [h1]
-      unfold Ks.rawLimb limbOr0 Buf.act
-      exact Ks.getD_take' _ _ l _ (by rw [s3]; exact hl')
-    rw [e2, s6 c l hc, if_pos hl']
-    simp only [Nat.cast_one, one_mul]
-    rw [List.getD_eq_getElem?_getD]
-    cases h : (vmpFlat res.n a.flat key.mat 0 (res.size * res.cols))[l * res.cols + c]? with
-    | none => simp only [Option.getD_none]; rw [normInf_zeroP]; exact hK
-    | some q =>
-      simp only [Option.getD_some]
-      apply vmpFlat_bound' res.n _ key.mat 0 _ Da Dm hDa hDm _ hm q (List.mem_of_getElem? h)
-      intro r hr
-      unfold Buf.flat at hr
-      simp only [List.mem_map, List.mem_range] at hr
-      obtain ⟨i, _, rfl⟩ := hr
-      rw [han]
-      exact limbOr0_PB' _ _ (act_PB' a _ ha) hDa
-  · have hD2 : 2 ≤ key.dsize := by omega
-    intro p hp
-    obtain ⟨l, hl, rfl⟩ := List.getElem_of_mem hp
-    have e2 : ((Ks.gglweProductDft res a key).act c)[l] = limbOr0 res.n ((Ks.gglweProductDft res a key).act c) l := by
-      simp [limbOr0, List.getD_eq_getElem?_getD, List.getElem?_eq_getElem hl]
-    rw [e2, Ks.product_accum res a key hD2 hres hmax hcols han.symm l c hc]
-    have hpe : ∀ di, normInf (passEntry a key res.n di l c) ≤ ((key.mat.colsIn * key.mat.rows : Nat) : Int) * ((res.n : Int) * Da * Dm) :=
-      fun di => passEntry_bound' a key res.n di l c Da Dm hDa hDm ha hm
-    have h := normInf_condFold_le' (key.dsize - 1) (fun k => l < Ks.passSize key (k + 1)) (fun k => passEntry a key res.n (k + 1) l c)
-      (if l < Ks.passSize key 0 then passEntry a key res.n 0 l c else zeroP res.n) _ (fun k => hpe (k + 1))
-    have hinit : normInf (if l < Ks.passSize key 0 then passEntry a key res.n 0 l c else zeroP res.n)
-        ≤ ((key.mat.colsIn * key.mat.rows : Nat) : Int) * ((res.n : Int) * Da * Dm) := by
-      split
-      · exact hpe 0
-      · rw [normInf_zeroP]; exact hK
-    have hd : ((key.dsize : Nat) : Int) = ((key.dsize - 1 : Nat) : Int) + 1 := by
-      have : key.dsize = (key.dsize - 1) + 1 := by omega
-      exact_mod_cast this
-    rw [hd]
-    nlinarith [h, hinit]
-
-end Bound
-
-/-- the derived bound of the gadget product -/
-def prodBound' (dsize colsIn rows N : Nat) (Da Dm : Int) : Int := (dsize : Int) * (((colsIn * rows : Nat) : Int) * ((N : Int) * Da * Dm))
-
-theorem prodBound'_nonneg (dsize colsIn rows N : Nat) (Da Dm : Int) (hDa : 0 ≤ Da) (hDm : 0 ≤ Dm) : 0 ≤ prodBound' dsize colsIn rows N Da Dm := by
-  unfold prodBound'; positivity
-
-/-- **admissible shape of a gadget product**: digits `|a| ≤ Da`, `|key| ≤ Dm`, an added operand bounded by `Y`: the derived accumulator bound
-leaves the head-room the normalisation kernel needs, `bits = 64` (FFT64) or `128` (NTT120). -/
-def prodAdmissible' (bits dsize colsIn rows N : Nat) (Da Dm Y : Int) : Prop := prodBound' dsize colsIn rows N Da Dm + Y + 8 ≤ 2 ^ (bits - 2)
-
-instance (bits dsize colsIn rows N : Nat) (Da Dm Y : Int) : Decidable (prodAdmissible' bits dsize colsIn rows N Da Dm Y) := by
-  unfold prodAdmissible'; infer_instance
-
 /-! ## Part 1: the key switch with the head-room derived from digit bounds -/
 
-theorem setAct_data_PB' {n : Nat} {D : Int} (b : Buf) (c : Nat) (x : Col) (hb : ∀ col ∈ b.data, ∀ p ∈ col, PB' n D p)
-    (hx : ∀ p ∈ x, PB' n D p) : ∀ col ∈ (b.setAct c x).data, ∀ p ∈ col, PB' n D p := by
+theorem setAct_data_PB {n : Nat} {D : Int} (b : Buf) (c : Nat) (x : Col) (hb : ∀ col ∈ b.data, ∀ p ∈ col, PB n D p)
+    (hx : ∀ p ∈ x, PB n D p) : ∀ col ∈ (b.setAct c x).data, ∀ p ∈ col, PB n D p := by
   intro col hcol p hp
   unfold Buf.setAct at hcol
   simp only at hcol
@@ -221,14 +37,14 @@ theorem setAct_data_PB' {n : Nat} {D : Int} (b : Buf) (c : Nat) (x : Col) (hb : 
         exact hb col0 (List.mem_of_getElem? hc) p h2
 
 /-- every stored limb of the `a_dft` buffer of `glwe_keyswitch_internal` is bounded by the digit bound of the input -/
-theorem aDft_data_PB' {N : Nat} (a : Ks.Ct) (Da : Int) (hDa : 0 ≤ Da) (ha : GWF N a)
-    (hdig : ∀ c ∈ a.cols, ∀ l ∈ c, ∀ x ∈ l, |x| ≤ Da) : ∀ col ∈ (aDftOf a).data, ∀ p ∈ col, PB' N Da p := by
-  have hsrc : ∀ col ∈ (Ks.bufOfCols a.n a.size a.cols).data, ∀ l ∈ col, PB' N Da l := by
+theorem aDft_data_PB {N : Nat} (a : Ks.Ct) (Da : Int) (hDa : 0 ≤ Da) (ha : GWF N a)
+    (hdig : ∀ c ∈ a.cols, ∀ l ∈ c, ∀ x ∈ l, |x| ≤ Da) : ∀ col ∈ (aDftOf a).data, ∀ p ∈ col, PB N Da p := by
+  have hsrc : ∀ col ∈ (Ks.bufOfCols a.n a.size a.cols).data, ∀ l ∈ col, PB N Da l := by
     intro col hcol l hl
     exact ⟨le_of_eq ((ha.2.2 col hcol).2 l hl), hdig col hcol l hl⟩
-  have hinv : ∀ (L : List Nat) (acc : Buf), acc.n = N → (∀ col ∈ acc.data, ∀ p ∈ col, PB' N Da p) →
+  have hinv : ∀ (L : List Nat) (acc : Buf), acc.n = N → (∀ col ∈ acc.data, ∀ p ∈ col, PB N Da p) →
       ∀ col ∈ (L.foldl (fun (acc : Buf) ci => opDftApply 1 0 acc ci (Ks.bufOfCols a.n a.size a.cols) (ci + 1)) acc).data,
-        ∀ p ∈ col, PB' N Da p := by
+        ∀ p ∈ col, PB N Da p := by
     intro L
     induction L with
     | nil => intro acc _ h; simpa using h
@@ -239,9 +55,9 @@ theorem aDft_data_PB' {N : Nat} (a : Ks.Ct) (Da : Int) (hDa : 0 ≤ Da) (ha : GW
       · show acc.n = N
         exact hn
       · unfold opDftApply
-        apply setAct_data_PB' acc c0 _ h
+        apply setAct_data_PB acc c0 _ h
         rw [hn]
-        exact dftApplyCol_PB' _ _ _ _ (act_PB' _ _ hsrc) hDa
+        exact dftApplyCol_PB _ _ _ _ (act_PB _ _ hsrc) hDa
   unfold aDftOf
   apply hinv _ _ ha.1
   intro col hcol p hp
@@ -251,25 +67,25 @@ theorem aDft_data_PB' {N : Nat} (a : Ks.Ct) (Da : Int) (hDa : 0 ≤ Da) (ha : GW
   unfold Ks.zeroCol at hp
   simp only [List.mem_replicate] at hp
   rw [hp.2, ha.1]
-  exact PB'_zero N Da hDa
+  exact PB_zero N Da hDa
 
 /-- **the product buffer of `glwe_keyswitch`, bounded from digit bounds**: input digits `≤ Da`, key digits `≤ Dm` ⇒ every coefficient of
-`prodOf rout a key` is bounded by `prodBound' = dsize·(cols_in·rows)·N·Da·Dm`. -/
+`prodOf rout a key` is bounded by `prodBound = dsize·(cols_in·rows)·N·Da·Dm`. -/
 theorem prodOf_bound (N rout : Nat) (a : Ks.Ct) (key : Ks.Key) (Da Dm : Int) (hDa : 0 ≤ Da) (hDm : 0 ≤ Dm) (hD : 1 ≤ key.dsize)
     (ha : GWF N a) (hrout : rout + 1 = key.mat.colsOut)
     (hdig : ∀ c ∈ a.cols, ∀ l ∈ c, ∀ x ∈ l, |x| ≤ Da) (hm : ∀ j q, normInf (key.mat.entry j q) ≤ Dm) :
     ∀ i, i < rout + 1 → ∀ l ∈ (prodOf rout a key).act i, ∀ x ∈ l,
-      |x| ≤ prodBound' key.dsize key.mat.colsIn key.mat.rows N Da Dm := by
+      |x| ≤ prodBound key.dsize key.mat.colsIn key.mat.rows N Da Dm := by
   intro i hi l hl x hx
   obtain ⟨_, _, _, dn, _, _⟩ := aDft_spec a ha
-  have hb := product_bound' N (Ks.zeroBuf a.n (rout + 1) key.size) (aDftOf a) key Da Dm hDa hDm hD (Ks.zeroBuf_WF _ _ _) rfl rfl hrout
-    ha.1 dn (aDft_data_PB' a Da hDa ha hdig) hm i hi l hl
+  have hb := product_bound N (Ks.zeroBuf a.n (rout + 1) key.size) (aDftOf a) key Da Dm hDa hDm hD (Ks.zeroBuf_WF _ _ _) rfl rfl hrout
+    ha.1 dn (aDft_data_PB a Da hDa ha hdig) hm i hi l hl
   exact (abs_le_normInf hx).trans hb
 
 /-- **admissible shape of a key switch**: input digits `≤ Hin` (hence `≤ Hin + 2^b_key` after the radix conversion), key digits `≤ Dm`:
 the derived bound of the product plus the body leaves the head-room of `vec_znx_big_normalize`, `bits = 64` (FFT64) or `128` (NTT120). -/
 def ksAdmShape (bits dsize colsIn rows N bkey : Nat) (Hin Dm : Int) : Prop :=
-  prodAdmissible' bits dsize colsIn rows N (Hin + 2 ^ bkey) Dm (Hin + 2 ^ bkey)
+  prodAdmissible bits dsize colsIn rows N (Hin + 2 ^ bkey) Dm (Hin + 2 ^ bkey)
 
 instance (bits dsize colsIn rows N bkey : Nat) (Hin Dm : Int) : Decidable (ksAdmShape bits dsize colsIn rows N bkey Hin Dm) := by
   unfold ksAdmShape; infer_instance
@@ -284,7 +100,7 @@ instance (big128 : Bool) (key : Ks.Key) (N : Nat) (Hin Dm : Int) : Decidable (ks
 
 theorem ksAdmissible_iff (big128 : Bool) (key : Ks.Key) (N : Nat) (Hin Dm : Int) :
     ksAdmissible big128 key N Hin Dm ↔
-      prodBound' key.dsize key.mat.colsIn key.mat.rows N (Hin + 2 ^ key.base2k) Dm + (Hin + 2 ^ key.base2k) + 8
+      prodBound key.dsize key.mat.colsIn key.mat.rows N (Hin + 2 ^ key.base2k) Dm + (Hin + 2 ^ key.base2k) + 8
         ≤ 2 ^ (bitsOf big128 - 2) := Iff.rfl
 
 /-- the crate's parameter sets are admissible (balanced digits `2^(b−1)` of the input and of the key): FFT64 `N = 4096`, rank 1 → 1,
@@ -300,7 +116,7 @@ theorem prodOf_conv_bound (N rout : Nat) (a : Ks.Ct) (key : Ks.Key) (Hin Dm : In
     (hIn0 : 0 ≤ Hin) (hIn : Hin + 8 ≤ 2 ^ 62) (hInB : ∀ c ∈ a.cols, ∀ l ∈ c, ∀ x ∈ l, |x| ≤ Hin)
     (hDm0 : 0 ≤ Dm) (hm : ∀ j q, normInf (key.mat.entry j q) ≤ Dm) :
     ∀ aConv, Ks.convIn a key = .ok aConv → ∀ i, i < rout + 1 → ∀ l ∈ (prodOf rout aConv key).act i, ∀ x ∈ l,
-      |x| ≤ prodBound' key.dsize key.mat.colsIn key.mat.rows N (Hin + 2 ^ key.base2k) Dm := by
+      |x| ≤ prodBound key.dsize key.mat.colsIn key.mat.rows N (Hin + 2 ^ key.base2k) Dm := by
   intro aConv hconv
   obtain ⟨aConv', hconv', gwC, _, _, _, hdigC, _⟩ := convIn_phase N a key Hin ha hbi1 hbi hbk1 hbk hIn0 hIn hInB
   rw [hconv] at hconv'
@@ -347,8 +163,8 @@ theorem glwe_keyswitch_value_adm (big128 : Bool) (N bout sout rout : Nat) (a : K
   have hrout' : rout + 1 = key.mat.colsOut := by rw [hrout]; unfold Ks.Key.rankOut; omega
   have hpk : (0 : Int) < 2 ^ key.base2k := by positivity
   exact glwe_keyswitch_value big128 N bout sout rout a key sIn skOut EL KL Hin
-    (prodBound' key.dsize key.mat.colsIn key.mat.rows N (Hin + 2 ^ key.base2k) Dm) hN ha hrank hrout hc0 hD hM hS hbi1 hbi hbk1 hbk hbo1 hbo
-    hIn0 hIn hInB (prodBound'_nonneg _ _ _ _ _ _ (by linarith) hDm0) hadm
+    (prodBound key.dsize key.mat.colsIn key.mat.rows N (Hin + 2 ^ key.base2k) Dm) hN ha hrank hrout hc0 hD hM hS hbi1 hbi hbk1 hbk hbo1 hbo
+    hIn0 hIn hInB (prodBound_nonneg _ _ _ _ _ _ (by linarith) hDm0) hadm
     (prodOf_conv_bound N rout a key Hin Dm ha hrout' hD hbi1 hbi hbk1 hbk hIn0 hIn hInB hDm0 hm) hEL hKL hkey
 
 /-- **`glwe_keyswitch_decrypts_adm`** — the end-to-end theorem `glwe_keyswitch_decrypts` (covered regime) with the head-room DERIVED from digit
@@ -392,8 +208,8 @@ theorem glwe_keyswitch_decrypts_adm (big128 : Bool) (N bout sout rout : Nat) (a 
   have hrout' : rout + 1 = key.mat.colsOut := by rw [hrout]; unfold Ks.Key.rankOut; omega
   have hpk : (0 : Int) < 2 ^ key.base2k := by positivity
   exact glwe_keyswitch_decrypts big128 N bout sout rout a key sIn skOut EL KL Hin
-    (prodBound' key.dsize key.mat.colsIn key.mat.rows N (Hin + 2 ^ key.base2k) Dm) hN ha hrank hrout hc0 hD hM hS hbi1 hbi hbk1 hbk hbo1 hbo
-    hIn0 hIn hInB (prodBound'_nonneg _ _ _ _ _ _ (by linarith) hDm0) hadm
+    (prodBound key.dsize key.mat.colsIn key.mat.rows N (Hin + 2 ^ key.base2k) Dm) hN ha hrank hrout hc0 hD hM hS hbi1 hbi hbk1 hbk hbo1 hbo
+    hIn0 hIn hInB (prodBound_nonneg _ _ _ _ _ _ (by linarith) hDm0) hadm
     (prodOf_conv_bound N rout a key Hin Dm ha hrout' hD hbi1 hbi hbk1 hbk hIn0 hIn hInB hDm0 hm) hs hEL hKL hkey hcov1 hcov2
 
 /-- **`glwe_keyswitch_assign_decrypts_adm`** — the in-place form, head-room derived. -/
@@ -433,32 +249,6 @@ theorem glwe_keyswitch_assign_decrypts_adm (big128 : Bool) (N : Nat) (a : Ks.Ct)
               ((1 + snorm (min a.rank skOut.length) skOut) * C02.normTol (a.base2k * a.size) (key.base2k * key.mat.size)) :=
   glwe_keyswitch_decrypts_adm big128 N a.base2k a.size a.rank a key sIn skOut EL KL Hin Dm hN ha hrank hrout hc0 hD hM hS hbi1 hbi hbk1 hbk
     hbi1 hbi hIn0 hIn hInB hDm0 hm hadm hs hEL hKL hkey hcov1 hcov2
-
-/-- a bound on the stored key digits gives the bound on the entries (hypothesis `hm` above) -/
-theorem entry_normInf' (m : PMat) (Dm : Int) (hDm : 0 ≤ Dm)
-    (h : ∀ row ∈ m.data, ∀ c ∈ row, ∀ l ∈ c, ∀ x ∈ l, |x| ≤ Dm) (j q : Nat) : normInf (m.entry j q) ≤ Dm := by
-  have getD_nil_mem : ∀ {α} (L : List (List α)) (i : Nat), L.getD i [] ∈ L ∨ L.getD i [] = [] := by
-    intro α L i
-    rw [List.getD_eq_getElem?_getD]
-    cases h : L[i]? with
-    | none => right; rfl
-    | some y => left; simpa using List.mem_of_getElem? h
-  unfold PMat.entry limbOr0
-  apply normInf_le_of_forall _ hDm
-  intro x hx
-  rw [List.getD_eq_getElem?_getD] at hx
-  cases h1 : ((m.data.getD j []).getD (q % m.colsOut) [])[q / m.colsOut]? with
-  | none =>
-    simp only [h1, Option.getD_none, zeroP, List.mem_replicate] at hx
-    rw [hx.2]; simpa using hDm
-  | some l =>
-    simp only [h1, Option.getD_some] at hx
-    have hl := List.mem_of_getElem? h1
-    rcases getD_nil_mem (m.data.getD j []) (q % m.colsOut) with hc | hc
-    · rcases getD_nil_mem m.data j with hr | hr
-      · exact h _ hr _ hc l hl x hx
-      · rw [hr] at hc; simp at hc
-    · rw [hc] at hl; simp at hl
 
 /-! ## Part 2: the general regime — the limbs of the input the key does not reach, as one explicit list with a closed bound -/
 
@@ -985,7 +775,7 @@ example (big128 : Bool) :
       (by decide) (by decide) (by decide) (by decide) (by decide) (by decide)
       (by norm_num) (by norm_num)
       (by intro c hc l hl x hx; revert x l c; decide)
-      (by norm_num) (entry_normInf' exKeyT.mat 1 (by norm_num) (by decide))
+      (by norm_num) (entry_normInf exKeyT.mat 1 (by norm_num) (by decide))
       (by cases big128 <;> decide)
       (by decide)
       (fun i r => Ks.keyErrL_length 1 4 [] exKeyT _ i r (by decide) hM (fun _ => rfl))
